@@ -52,10 +52,30 @@ class _Sub(object):
         return "HID"
 
 
+class _Ns(object):
+    """Reached through the instance under the same dotted path as the registered function 'ns.f' (the function wins)."""
+
+    def __init__(self, log):
+        self._log = log
+
+    def f(self, *a):
+        self._log.append(("instance.ns.f", list(a), {}))
+        return "INSTANCE-NS"
+
+
+class _SubB(_Sub):
+    """A replacement for Inst.sub whose methods can be told from the original's."""
+
+    def deep(self, *a):
+        self._log.append(("sub.deep", list(a) + ["from-the-replacement"], {}))
+        return "DEEP-B"
+
+
 class Inst(object):
     def __init__(self, log):
         self._log = log
         self.sub = _Sub(log)
+        self.ns = _Ns(log)
         self.attr = 7  # exists, not callable
 
     def pub(self, *a):
@@ -230,6 +250,13 @@ class World(object):
             log.append(("sharedfault", [], {}))
             return _SHARED["fault"]
 
+        def cfgfault():
+            # an application error returned as a Fault that was built with the server's own (non-default) Config
+            from jsonrpclib import Fault
+            log.append(("cfgfault", [], {}))
+            return Fault(-32003, "cfg-fault", data={"k": 1}, config=self.config)
+
+        reg("cfgfault", cfgfault)
         reg("sharedfault", sharedfault)
         reg("mutate", mutate)
         reg("badkeys", badkeys)
